@@ -232,6 +232,19 @@ theorem inserted_class_is_new {s s' : Snap} {n syn : Node} {f2o : SlotMap} {data
   Snap.add_new_alive h
 
 
+/-- **histories of insertions**: for every state with a well-formed table and no class id beyond it (`AddOK`, checked per run by the
+`addnew` query) and every sequence of modelled insertions, the invariant is kept and nothing old changes — every handle resolves to
+the same invocation, `eq` on old handles answers as before (no equality lost, none invented), every represented node stays
+represented by the same invocation -/
+theorem insertions_change_nothing_old {s s'' : Snap} (hok : Snap.AddOK s) (hi : Snap.Inserts s s'') :
+    Snap.AddOK s'' ∧ (∀ b r, Snap.find s b = some r → Snap.find s'' b = some r) ∧
+    (∀ b c r, Snap.eq s b c = some r → Snap.eq s'' b c = some r) ∧
+    (∀ m x, Snap.lookup s m = some x → Snap.lookup s'' m = some x) :=
+  Snap.inserts_preserve hok hi
+
+/-- non-vacuity: the empty e-graph satisfies `AddOK` -/
+example : Snap.AddOK { uf := [], classes := [] } := ⟨fun e he => by simp at he, fun c hc => by simp at hc⟩
+
 /-- non-vacuity: two classes are allocated, class 1 (slots 0, 4) is merged into class 0 (slots 8, 12) with the arguments
 exchanged, then class 0 loses slot 12; all four writes pass the guards -/
 example : (Snap.applyWrites [] [(0, ⟨0, [(8, 8), (12, 12)]⟩), (1, ⟨1, [(0, 0), (4, 4)]⟩),
